@@ -107,7 +107,8 @@ def run(ctx):
                                        "no_input": True})
     cov = {"evaluations": evaluations, "programs": scen, "distinct_nontrivial": distinct,
            "arith_evaluations": arith_evals, "full_evaluations": full_evals,
-           "rule": "scenario = FRI parameter set (blow-up 1-3, queries 1-3, max_log_arity 1-4 giving mixed arity schedules, final poly "
+           "rule": "scenario = FRI parameter set (blow-up 1-3, queries 1-3, max_log_arity 1-4 giving mixed arity schedules incl. the empty "
+                   "one (every matrix of height one: 1 in 24 generated scenarios + 4 corpus scenarios), final poly "
                    "length 1-8, PoW bits 0-4) x 1-3 batches of 1-3 matrices of mixed heights/widths, opening points shared or not; the "
                    "real prover makes an honest proof; each case is that proof or one single-element / single-shape alteration of it. "
                    "arith cases go to the real native verify_fri (mock MMCS, scripted challenger), to verify_fri_circuit(None)+runner and to "
@@ -125,15 +126,24 @@ CHECK = {
     "lean_exes": ["p3r_driver_c07"],
     "theorems": [
         "P3R.C07.fri_shape_iff",
+        "P3R.C07.height_above_two_adicity_rejected_by_both", "P3R.C07.sibling_count_mismatch_rejected_by_both",
+        "P3R.C07.fold_chain_zero_phase", "P3R.C07.subgroup_starts_zero_phase", "P3R.C07.final_point_zero_phase",
+        "P3R.C07.verify_query_zero_phase", "P3R.C07.roll_ins_zero_phase", "P3R.C07.query_tail_zero_phase",
+        "P3R.C07.query_check_zero_phase", "P3R.C07.zero_phase_query_agree",
         "P3R.C07.selChain_eq_pow", "P3R.C07.reverseBits_eq_bitsToNat", "P3R.C07.query_index_eq",
         "P3R.C07.query_index_prefix_eq", "P3R.C07.expPow2_eq",
         "P3R.C07.reconstruct_arity2_eq", "P3R.C07.reconstruct_arity4_eq", "P3R.C07.reconstruct_arity8_eq",
         "P3R.C07.fold_arity2_eq", "P3R.C07.fold_arity2_path_eq", "P3R.C07.fold_arity4_eq", "P3R.C07.fold_general_eq",
         "P3R.C07.horner_cols_eq", "P3R.C07.native_cols_eq", "P3R.C07.open_input_fast_path_eq",
-        "P3R.C07.final_poly_eq",
+        "P3R.C07.final_poly_eq", "P3R.C07.final_point_eq",
         "P3R.C07.Witness.shape_needs_num_queries", "P3R.C07.Witness.arity_zero_rejected_by_both",
-        "P3R.C07.Witness.shape_needs_arity_upper_bound", "P3R.C07.Witness.shape_needs_phase",
+        "P3R.C07.Witness.shape_needs_arity_upper_bound",
         "P3R.C07.Witness.shape_needs_matched_heights",
+        # regression records of C07-F4 (repo fix 0e5036a); the former witness `shape_needs_phase`
+        # (native accepts, circuit refuses) is restated as acceptance by both
+        "P3R.C07.Witness.zero_phase_accepted_by_both",
+        "P3R.C07.Witness.zero_phase_altered_final_poly_rejected_by_both",
+        "P3R.C07.Witness.zero_phase_honest_final_poly_accepted_by_both",
     ],
     "run": run,
     "trusted_base": [
@@ -142,7 +152,9 @@ CHECK = {
         "the arithmetic-only native run uses the real p3_fri::verifier::verify_fri with an accept-everything MMCS and a scripted challenger written in the harness",
     ],
     "assumptions": [
-        "fri_shape_iff holds under its listed hypotheses only; each hypothesis is shown necessary by a Witness theorem and by a corpus case replayed on the real code (known findings C07-F2..F5)",
+        "fri_shape_iff holds under its listed hypotheses H1-H6 only; H1, H2, H4 are shown necessary by a Witness theorem and by a corpus case replayed on the real code (known findings C07-F2, F3, F5); H3/H5 describe how the real flow calls the function, H6 (two-adicity <= 31) is a fact about the field. The former hypotheses 'at least one fold phase' and 'log_max_height <= two-adicity' are gone (repo fixes 0e5036a, c030fca): the statement covers proofs without fold phase",
+        "zero_phase_query_agree compares the two per-query checks after open_input for a proof without fold phase whose only reduced opening is at the maximum height (what H4 gives); further reduced openings are the C07-F5 divergence (query_tail_zero_phase states the circuit side for them)",
+        "arith mode calls verify_fri_circuit directly; the two height bounds of verify_circuit (31 bits, two-adicity) are re-stated in the harness (build_arith) and in the model; the real verify_circuit is exercised in full mode (full shape kind 2)",
         "general-arity fold: proved as 'sequential arity-2 folds of the evaluations of any polynomial of degree < 2^k on the bit-reversed coset give its value at beta' (fold_general_eq); equality with native lagrange_interpolate_at's barycentric formula is proved for arity 2 and 4 (fold_arity2_eq, fold_arity4_eq) and rests on the correspondence for arity >= 8",
         "log_blowup >= 1 (for log_folded_height = 0 the circuit skips the commit-phase MMCS check; unreachable for valid parameters)",
     ],
@@ -158,8 +170,8 @@ MANIFEST_ENTRY = {
     "technique": "Lean 4 theorems over hand-written models of the native FRI verifier arithmetic and of the circuit emitted by verify_fri_circuit + exact differential correspondence (verdict and FriError variant) + end-to-end native-vs-circuit oracle with real Merkle trees and challenger",
     "level_claimed": {
         "category": "proof",
-        "text": "Lean theorems about the L10 models: shape-validation equivalence under explicit hypotheses (each shown necessary), index/point arithmetic for every arity schedule, reconstruct_evals closed forms, arity-2/4 fold = native Lagrange formula, general-arity sequential fold = polynomial value, Horner chains and fast path, final polynomial. Models tied to the Rust by line-by-line equality of native verdict (with error variant) and circuit outcome on generated honest proofs and single alterations; whole-PCS agreement (MMCS, PoW, index sampling) judged on the real code only.",
+        "text": "Lean theorems about the L10 models: shape-validation equivalence under explicit hypotheses (H1, H2, H4 shown necessary; proofs without fold phase included), the per-query comparison of a proof without fold phase (circuit tail = native check), index/point arithmetic for every arity schedule, reconstruct_evals closed forms, arity-2/4 fold = native Lagrange formula, general-arity sequential fold = polynomial value, Horner chains and fast path, final polynomial. Models tied to the Rust by line-by-line equality of native verdict (with error variant) and circuit outcome on generated honest proofs and single alterations; whole-PCS agreement (MMCS, PoW, index sampling) judged on the real code only.",
         "design_ref": "4/C07",
     },
-    "level_note": "Lean kernel + 3 standard axioms; models hand-written (correspondence-tested); executable field instances unverified; Merkle/transcript parts not modelled here; known defects C07-F2, F3, F4, F5 where circuit and native verdicts differ; C07-F1 and C07-F3c fixed (fixes/C07-1.diff, fixes/C07-2.diff), their witnesses in corpus/c07 are regression cases",
+    "level_note": "Lean kernel + 3 standard axioms; models hand-written (correspondence-tested); executable field instances unverified; Merkle/transcript parts not modelled here; known defects C07-F2, F3, F5 where circuit and native verdicts differ; C07-F1, C07-F3c and C07-F4/F4b fixed (/repo 93b4a80, f783d84, 0e5036a), their witnesses in corpus/c07 are regression cases (f4*: `expect_honest: accept`); corpus/c07/f9_fri_shape_regressions.json replays the repaired F9i / F9d / F9e panics on the FRI path (both verifiers must refuse, no panic)",
 }
